@@ -168,6 +168,10 @@ def build_config(topo):
                                     "balls_to_save": logic["ball_save"].get("balls_to_save", 1),
                                     "auto_launch": logic["ball_save"].get("auto_launch", True),
                                     "enable_events": "ball_started, ev_save_enable"}}
+        if logic["ball_save"].get("delayed_eject"):
+            # the saved ball is held back until an event (MPF forbids eject_delay together with delayed_eject_events)
+            del cfg["ball_saves"]["bs"]["eject_delay"]
+            cfg["ball_saves"]["bs"]["delayed_eject_events"] = "ev_save_eject"
     if logic.get("multiball"):
         mb = {"ball_count": logic["multiball"].get("ball_count", 2),
               "shoot_again": "%ss" % logic["multiball"].get("shoot_again_s", 0),
